@@ -100,8 +100,14 @@ Choices ==
          \cup {[Node(0, "leaf") EXCEPT !.rd = r, !.ref = p] : r \in {"a", "b"}, p \in {0, -1}}
          \cup {[Node(0, "var") EXCEPT !.asg = <<<<"b", e>>>>] : e \in {Lit(0), Inc("b")}}
          \cup {[Node(0, "if") EXCEPT !.cond = Lt("b", 2)]}
+         \* conditions are "non-zero", not "positive": {{$b - 2}} is negative, zero, positive
+         \cup {[Node(0, "if") EXCEPT !.cond = Sub("b", 2)],
+               [Node(0, "loop") EXCEPT !.form = "while", !.cond = Sub("b", 2)],
+               [Node(0, "loop") EXCEPT !.form = "until", !.cond = Sub("b", 1)]}
     [] Family = "scope" ->
          {[Node(0, "g") EXCEPT !.loc = l] : l \in {<<>>, <<<<"a", 1>>>>, <<<<"b", 2>>>>}}
+         \* a group whose own attribute reads a variable that the group rebinds for its content
+         \cup {[Node(0, "g") EXCEPT !.loc = <<<<"a", 1>>>>, !.rd = r] : r \in {"a", "b"}}
          \cup {[Node(0, "leaf") EXCEPT !.rd = r, !.ref = t] :
                    r \in {"a", "b", "u"}, t \in {0} \cup ((Sz + 2)..MaxNodes)}
          \cup {[Node(0, "var") EXCEPT !.asg = a] :
@@ -396,17 +402,21 @@ LeafResolve ==
                /\ UNCHANGED <<ret, depth, scopes, inSpecs>>
     /\ UNCHANGED <<doc, lim, lim0, phase, omap, result, out, passes>>
 
+\* the group's own attributes (its probe, nd.rd) are evaluated in the ENCLOSING scope,
+\* before its locals are pushed for the descendants
 GroupPush ==
     /\ Body("g")
     /\ scopes' = Append(scopes, ScopeOf(Top.nd.loc))
-    /\ stack' = Append(SetTopFrame([Top EXCEPT !.ph = "wait"]), NewPe(Top.nd.ch))
+    /\ LET own == IF Top.nd.rd = "-" THEN <<>>
+                  ELSE <<[id |-> Top.nd.id, v |-> Lookup(scopes, Top.nd.rd), x |-> 0, stale |-> FALSE]>>
+       IN stack' = Append(SetTopFrame([Top EXCEPT !.ph = "wait", !.acc = own]), NewPe(Top.nd.ch))
     /\ UNCHANGED <<doc, lim, lim0, phase, ret, depth, emap, omap, inSpecs, rng, result, out, gx, px, passes>>
 
 GroupPop ==
     /\ Wait("g", "ok")
     /\ scopes' = SubSeq(scopes, 1, Len(scopes) - 1)
     /\ emap' = IF Top.inst THEN emap ELSE [emap EXCEPT ![Top.nd.id] = "done"]
-    /\ stack' = SetTopFrame([Top EXCEPT !.ph = "exit", !.acc = ret.items])
+    /\ stack' = SetTopFrame([Top EXCEPT !.ph = "exit", !.acc = Top.acc \o ret.items])
     /\ ret' = RetNone
     /\ UNCHANGED <<doc, lim, lim0, phase, depth, omap, inSpecs, rng, result, out, gx, px, passes>>
 
